@@ -116,6 +116,9 @@ structure Event where
   args : List Val
   state : Store
   global : Store
+  /-- the stores as the block left them (not printed; used by the C05 invariant) -/
+  sout : Store
+  gout : Store
 deriving Inhabited, Repr
 
 inductive MemoKey where
@@ -221,6 +224,14 @@ def addErrAt (E : Env) (s : PState) (msg : String) (pos : Pos) : PState :=
 
 def addErr (E : Env) (s : PState) (msg : String) : PState := addErrAt E s msg s.pt.pos
 
+/-- record the error a code block returned, if any -/
+def addErrAtOpt (E : Env) (s : PState) (o : Option String) (pos : Pos) : PState :=
+  match o with
+  | some m => addErrAt E s m pos
+  | none => s
+
+def addErrOpt (E : Env) (s : PState) (o : Option String) : PState := addErrAtOpt E s o s.pt.pos
+
 def failAt (s : PState) (fail : Bool) (pos : Pos) (want : String) : PState :=
   if fail == s.maxFailInvert then
     if pos.off < s.maxFailPos.off then s
@@ -278,7 +289,8 @@ def callBlock (E : Env) (blk : Nat) (s : PState) : BlockResult × PState :=
                      global := s.global, calli := s.nCalls }
   let r := E.code.run blk ctx
   let ev : Event := { blk := blk, calli := s.nCalls, pos := s.curPos, text := s.curText,
-                      args := args, state := st, global := s.global }
+                      args := args, state := st, global := s.global,
+                      sout := r.state, gout := r.global }
   (r, { s with nCalls := s.nCalls + 1, trace := ev :: s.trace,
                state := if E.useState then r.state else s.state, global := r.global })
 
@@ -440,7 +452,7 @@ def runCodeBlock (blk : Nat) (s : PState) (k : BlockResult → PState → Outcom
   let (r, s1) := callBlock E blk s
   match r.panic with
   | some p => .panic p s1
-  | none => k r (match r.err with | some m => addErr E s1 m | none => s1)
+  | none => k r (addErrOpt E s1 r.err)
 
 /-- `parseActionExpr` -/
 def parseAction (blk : Nat) (e1 : Expr) (s : PState) : Outcome :=
@@ -453,10 +465,7 @@ def parseAction (blk : Nat) (e1 : Expr) (s : PState) : Outcome :=
       match r.panic with
       | some p => .panic p s3
       | none =>
-        let s4 := match r.err with
-          | some m => addErrAt E s3 m start.pos
-          | none => s3
-        .done r.ret true (restoreState E s4 saved)
+        .done r.ret true (restoreState E (addErrAtOpt E s3 r.err start.pos) saved)
     else .done v false s1
 
 /-- `parseAndCodeExpr` -/
@@ -587,33 +596,38 @@ inductive Final where
   | panic (p : PanicVal) (s : PState)
 deriving Inhabited
 
+/-- the entrypoint `newParser`/`Entrypoint` select -/
+def entryName (E : Env) (first : Rule) : String :=
+  match E.opts.entry with
+  | none => first.name
+  | some n => if n = "" then first.name else n
+
+/-- what `parse` does with the start rule's outcome: the deferred `recover`, the synthesised
+    "no match" error, `errs.err()` -/
+def finish (E : Env) : Outcome → Final
+  | .oof => .oof
+  | .panic p s =>
+    if E.opts.recover then
+      let s' := addErr E s (panicMessage p)
+      .ret .nil (dedupe s'.errs) s'
+    else .panic p s
+  | .done v ok s =>
+    if !ok then
+      if s.errs.isEmpty then
+        let s' := addErrAt E s (noMatchMessage s.maxFailExpected).1 s.maxFailPos
+        .ret .nil (dedupe s'.errs) s'
+      else .ret .nil (dedupe s.errs) s
+    else .ret v (dedupe s.errs) s
+
 /-- `(*parser).parse` including the deferred `recover` -/
 def parse (E : Env) (fuel : Nat) : Final :=
   let s0 := initState E
   match E.rules with
   | [] => let s := addErr E s0 errNoRule; .ret .nil (dedupe s.errs) s
   | first :: _ =>
-    let entry := match E.opts.entry with
-      | none => first.name
-      | some n => if n = "" then first.name else n
-    match E.findRule entry with
+    match E.findRule (entryName E first) with
     | none => let s := addErr E s0 errInvalidEntrypoint; .ret .nil (dedupe s.errs) s
-    | some r =>
-      let s1 := read E s0
-      match parseRuleWrap E (parseExpr E fuel) fuel r s1 with
-      | .oof => .oof
-      | .panic p s =>
-        if E.opts.recover then
-          let s' := addErr E s (panicMessage p)
-          .ret .nil (dedupe s'.errs) s'
-        else .panic p s
-      | .done v ok s =>
-        if !ok then
-          if s.errs.isEmpty then
-            let s' := addErrAt E s (noMatchMessage s.maxFailExpected).1 s.maxFailPos
-            .ret .nil (dedupe s'.errs) s'
-          else .ret .nil (dedupe s.errs) s
-        else .ret v (dedupe s.errs) s
+    | some r => finish E (parseRuleWrap E (parseExpr E fuel) fuel r (read E s0))
 
 end RT
 end PV
